@@ -67,8 +67,76 @@ impl RunOut {
     }
 }
 
-/// Run a binary with a budget (RSBDD_VERIF_BUDGET) and a generous watchdog.
+/// How the bytes of an input reach the tool. Every variant is an ordinary way of using a
+/// command-line tool: a regular file, a pipe on stdin (delivered at once or in pieces, as `cat`
+/// of a slow producer would), a named pipe or `/dev/stdin` given as the file argument
+/// (`tool <(producer)` in a shell). Non-regular files report length 0 and deliver short reads.
+#[derive(Debug, Clone, Default)]
+pub struct Feed {
+    /// deliver stdin in pieces of this many bytes with a short pause between them (0 = at once)
+    pub stdin_chunk: usize,
+    /// named pipes to create (path, content, chunk size) and feed while the tool runs
+    pub fifos: Vec<(std::path::PathBuf, Vec<u8>, usize)>,
+}
+
+fn write_chunked(w: &mut dyn Write, data: &[u8], chunk: usize) {
+    if chunk == 0 {
+        let _ = w.write_all(data);
+        return;
+    }
+    for (i, piece) in data.chunks(chunk).enumerate() {
+        if w.write_all(piece).is_err() || w.flush().is_err() {
+            return;
+        }
+        if i < 64 {
+            std::thread::sleep(Duration::from_micros(150));
+        }
+    }
+}
+
+/// Create a named pipe at `path` (replacing whatever is there). false = could not be created.
+pub fn make_fifo(path: &Path) -> bool {
+    use std::os::unix::ffi::OsStrExt;
+    let _ = std::fs::remove_file(path);
+    let Ok(c) = std::ffi::CString::new(path.as_os_str().as_bytes()) else { return false };
+    unsafe { libc::mkfifo(c.as_ptr(), 0o600) == 0 }
+}
+
+fn feed_fifo(path: std::path::PathBuf, data: Vec<u8>, chunk: usize, stop: std::sync::Arc<std::sync::atomic::AtomicBool>) {
+    use std::os::unix::fs::OpenOptionsExt;
+    use std::sync::atomic::Ordering;
+    // wait for the reader without blocking for ever if the tool never opens the pipe
+    let file = loop {
+        if stop.load(Ordering::SeqCst) {
+            return;
+        }
+        match std::fs::OpenOptions::new().write(true).custom_flags(libc::O_NONBLOCK).open(&path) {
+            Ok(f) => break f,
+            Err(_) => std::thread::sleep(Duration::from_micros(200)),
+        }
+    };
+    // back to blocking writes: a reader that stops reading ends with the watchdog closing its end
+    use std::os::unix::io::AsRawFd;
+    unsafe {
+        let fl = libc::fcntl(file.as_raw_fd(), libc::F_GETFL);
+        libc::fcntl(file.as_raw_fd(), libc::F_SETFL, fl & !libc::O_NONBLOCK);
+    }
+    let mut file = file;
+    write_chunked(&mut file, &data, chunk);
+}
+
 pub fn run(bin: &Path, args: &[String], stdin: Option<&[u8]>, cwd: Option<&Path>, budget: Option<(u64, u64)>, watchdog: Duration) -> RunOut {
+    run_fed(bin, args, stdin, &Feed::default(), cwd, budget, watchdog)
+}
+
+/// Run a binary with a budget (RSBDD_VERIF_BUDGET) and a generous watchdog.
+pub fn run_fed(bin: &Path, args: &[String], stdin: Option<&[u8]>, feed: &Feed, cwd: Option<&Path>, budget: Option<(u64, u64)>, watchdog: Duration) -> RunOut {
+    let stop = std::sync::Arc::new(std::sync::atomic::AtomicBool::new(false));
+    for (p, _, _) in &feed.fifos {
+        if !make_fifo(p) {
+            return RunOut { code: None, signal: None, stdout: vec![], stderr: format!("HARNESS: cannot create named pipe {}", p.display()).into_bytes(), timed_out: true };
+        }
+    }
     let mut cmd = Command::new(bin);
     cmd.args(args).stdin(if stdin.is_some() { Stdio::piped() } else { Stdio::null() }).stdout(Stdio::piped()).stderr(Stdio::piped());
     cmd.env("RUST_BACKTRACE", "0");
@@ -100,10 +168,15 @@ pub fn run(bin: &Path, args: &[String], stdin: Option<&[u8]>, cwd: Option<&Path>
     if let Some(input) = stdin {
         if let Some(mut si) = child.stdin.take() {
             let data = input.to_vec();
+            let chunk = feed.stdin_chunk;
             std::thread::spawn(move || {
-                let _ = si.write_all(&data);
+                write_chunked(&mut si, &data, chunk);
             });
         }
+    }
+    for (p, data, chunk) in &feed.fifos {
+        let (p, data, chunk, stop) = (p.clone(), data.clone(), *chunk, std::sync::Arc::clone(&stop));
+        std::thread::spawn(move || feed_fifo(p, data, chunk, stop));
     }
     let start = Instant::now();
     let mut timed_out = false;
@@ -126,6 +199,7 @@ pub fn run(bin: &Path, args: &[String], stdin: Option<&[u8]>, cwd: Option<&Path>
             }
         }
     };
+    stop.store(true, std::sync::atomic::Ordering::SeqCst);
     let stdout = h_out.join().unwrap_or_default();
     let stderr = h_err.join().unwrap_or_default();
     let (code, signal) = match status {
